@@ -163,9 +163,9 @@ func (e *Engine) blockTypeFact(t types.Type, blk, off *Term) *Term {
 		return Or(Eq(blk, IntLit(0)), own, arr)
 	case *types.Slice:
 		el := u.Elem()
-		if _, isTP := el.(*types.TypeParam); isTP {
-			return nil
-		}
+		// (a slice of a type parameter is treated like any other slice: its backing array is an array
+		// allocation - safe Go cannot make a slice over a single struct variable - so it is separate
+		// from the blocks of the struct types known here, whatever the type argument is)
 		if tu.arrayElem[types.TypeString(el, nil)] {
 			return nil
 		}
@@ -225,9 +225,7 @@ func (e *Engine) registerAllocTypes(fn *ssa.Function) {
 		case *types.Pointer:
 			visit(u.Elem(), depth)
 		case *types.Slice:
-			if _, isTP := u.Elem().(*types.TypeParam); !isTP {
-				e.typeID(types.NewSlice(u.Elem()))
-			}
+			e.typeID(types.NewSlice(u.Elem()))
 			visit(u.Elem(), depth+1)
 		case *types.Array:
 			e.typeID(types.NewSlice(u.Elem()))
